@@ -105,7 +105,10 @@ def command(engine, args, cpus=None, miri_seed=None, miri_cpus=None, miri_many=N
     else:
         argv = [spec["bin"]] + args
     if cpus:
-        argv = ["taskset", "-c", f"0-{cpus - 1}"] + argv
+        # never ask for more CPUs than this process may use
+        allowed = sorted(os.sched_getaffinity(0))
+        use = allowed[: max(1, min(cpus, len(allowed)))]
+        argv = ["taskset", "-c", ",".join(str(c) for c in use)] + argv
     return argv, env
 
 
